@@ -6,6 +6,11 @@ import z3
 
 from vf import pysym, rx
 
+# string constants of the module under test (set by the harness): a symbolic string can be hashed -- looked up
+# in a set/dict -- by deciding, with forks, which of these constants it equals
+KNOWN_CONSTANTS = []
+
+
 def _chars_of(s):
     if isinstance(s, SymStr):
         return s.chars
@@ -51,7 +56,12 @@ class SymStr:
         return not self.__eq__(other)
 
     def __hash__(self):
-        raise pysym.HarnessGap("hash() of a symbolic string")
+        # set/dict lookup: if the string equals one of the module's constants (a fork per candidate of the same
+        # length) it hashes like that constant; otherwise like a value no container of those constants holds
+        for k in KNOWN_CONSTANTS:
+            if len(k) == len(self.chars) and pysym.ctx().fork(self._eq_cond(k)):
+                return hash(k)
+        return hash(("symbolic string equal to no known constant", len(self.chars)))
 
     def startswith(self, prefix):
         pc = _chars_of(prefix)
@@ -61,22 +71,30 @@ class SymStr:
             return True
         return pysym.ctx().fork(z3.And(*[a == b for a, b in zip(self.chars, pc)]))
 
-    def lstrip(self):
+    @staticmethod
+    def _strip_cond(chars, ch):
+        if chars is None:
+            return rx.is_space(ch)
+        if isinstance(chars, SymStr):
+            raise pysym.HarnessGap("strip() with a symbolic character set")
+        return z3.Or(*[ch == ord(x) for x in chars]) if chars else z3.BoolVal(False)
+
+    def lstrip(self, chars=None):
         c = pysym.ctx()
         i = 0
-        while i < len(self.chars) and c.fork(rx.is_space(self.chars[i])):
+        while i < len(self.chars) and c.fork(self._strip_cond(chars, self.chars[i])):
             i += 1
         return SymStr(self.chars[i:])
 
-    def rstrip(self):
+    def rstrip(self, chars=None):
         c = pysym.ctx()
         i = len(self.chars)
-        while i > 0 and c.fork(rx.is_space(self.chars[i - 1])):
+        while i > 0 and c.fork(self._strip_cond(chars, self.chars[i - 1])):
             i -= 1
         return SymStr(self.chars[:i])
 
-    def strip(self):
-        return self.lstrip().rstrip()
+    def strip(self, chars=None):
+        return self.lstrip(chars).rstrip(chars)
 
     def endswith(self, suffix):
         sc = _chars_of(suffix)
